@@ -424,9 +424,10 @@ static uint64_t check_safe(seqx::Ctx& c, const std::string& wire, const Result& 
     if (r.overrun || r.endless) { c.fail("endless-loop", "step bound exceeded: %llu stream calls for %zu input bytes", (unsigned long long)r.calls, wire.size()); return 1; }
     if (r.rh == 0) {
         if (!is_subsequence(r.body, wire)) { c.fail("body-bytes-from-outside-the-message", "body \"%s\" is not made of the input bytes", esc(r.body, 80).c_str()); return 5; }
-        if (r.hdr_changed) c.fail("header-view-changed-by-body-read", "headers / start line differ after reading the body");
+        // (a malformed header line may be parsed leniently into a "header" that extends into the body bytes, which the chunk reader
+        //  moves around later: not demanded to be stable by the property, so hdr_changed is not an error here)
         for (auto& kv : r.hdrs) if (kv.first.find('\xDD') != std::string::npos || kv.second.find('\xDD') != std::string::npos) { c.fail("header-bytes-from-outside-the-message", "header contains receive-buffer filler"); break; }
-        return r.last_rc < 0 ? 6 : 7;
+        return (r.last_rc < 0 ? 6 : 7) + 20 * r.hdr_changed;
     }
     return r.rh == 1 ? 8 : 9;
 }
@@ -582,10 +583,330 @@ static void enum_valid(seqx::Ctx& c, bool thorough) {
     }
 }
 
+
+// ---------------------------------------------------------------------------------------------------------------
+// E: truncated / malformed / arbitrary input
+// ---------------------------------------------------------------------------------------------------------------
+enum BadKind { K_TRUNC = 1, K_BADHEX, K_NOCR, K_NOLF, K_BIGCHUNK, K_NOCOLON, K_GARBAGE, K_OVERSIZE, K_MANYHDR };
+
+// strict oracle for a truncated valid message: header incomplete => receive_header() != 0; else body = prefix of the payload
+// that is present in the input, then error or end-of-stream
+static uint64_t check_trunc(seqx::Ctx& c, const Msg& m, size_t T, const std::string& wire, const Result& r) {
+    uint64_t o = check_safe(c, wire, r);
+    if (o == 1 || o == 5) return o;
+    if (T < m.hdr_len) { if (r.rh == 0) { c.fail("truncated-header-accepted", "receive_header() = 0 although only %zu of %zu header bytes were sent", T, m.hdr_len); return 30; } return o; }
+    if (r.rh != 0) { c.fail("valid-message-rejected", "receive_header() = %d although the complete header block was sent (truncated in the body)", r.rh); return 31; }
+    size_t present = 0;      // payload bytes contained in wire[0,T)
+    for (size_t p = m.hdr_len; p < T; p++) if (m.el[p] == E_CLBODY || m.el[p] == E_CDATA || m.el[p] == E_CLOSEBODY) present++;
+    if (r.body.size() > present || m.payload.compare(0, r.body.size(), r.body) != 0) {
+        c.fail("truncated-body-not-a-payload-prefix", "body %zu bytes \"%s\", input holds %zu payload bytes", r.body.size(), esc(r.body, 60).c_str(), present); return 32;
+    }
+    return o * 10 + (r.body.size() == present);
+}
+
+static void exec_bad(seqx::Ctx& c, const Msg& m, int kind, size_t T, const std::string& wire, const std::string& el, const Delivery& d, size_t rb, unsigned cap, uint64_t sub) {
+    Result r;
+    run(wire, d, m.req ? M_SERVER_REQ : M_CLIENT_RESP, m.fr.kind == F_HEAD ? Verb::HEAD : Verb::GET, cap, rb, wire.size() + 8, nullptr, r);
+    uint64_t o = kind == K_TRUNC ? check_trunc(c, m, T, wire, r) : check_safe(c, wire, r);
+    uint64_t h = seqx::mix(100 + kind, frame_class(m)); h = seqx::mix(h, sub);
+    h = seqx::mix(h, delivery_class(el, d)); h = seqx::mix(h, rb == 1 ? 1 : 3); h = seqx::mix(h, o);
+    c.cls(h);
+}
+
+// whole / one byte at a time / every single cut (two cuts if k2) of a bad input
+static void bad_deliveries(seqx::Ctx& c, const Msg& m, int kind, const char* kname, const std::string& what, size_t T, const std::string& wire, const std::string& el,
+                           const std::vector<int>& cand, bool k2, const std::vector<size_t>& rbs, uint64_t sub, unsigned cap = 65535) {
+    std::string ew;      // escaped input, built lazily (only when a case of this input is ours)
+    auto E = [&]() -> const char* { if (ew.empty()) ew = esc(wire); return ew.c_str(); };
+    int n = (int)cand.size(), L = (int)wire.size();
+#define BAD_FMT "E-%s %s base=%s mode=%s cap=%u rb=%zu delivery=%s cuts=%d,%d input(%d bytes)=\"%s\""
+    for (size_t rb : rbs) {
+        Delivery d;
+        if (c.begin(BAD_FMT, kname, what.c_str(), m.id.c_str(), mode_name(m), cap, rb, "whole", -1, -1, L, E())) exec_bad(c, m, kind, T, wire, el, d, rb, cap, sub);
+        if (L > 1 && c.begin(BAD_FMT, kname, what.c_str(), m.id.c_str(), mode_name(m), cap, rb, "one-byte-at-a-time", -1, -1, L, E())) { d.every = true; exec_bad(c, m, kind, T, wire, el, d, rb, cap, sub); d.every = false; }
+        for (int i = 0; i < n && cand[i] < L; i++) {
+            if (c.begin(BAD_FMT, kname, what.c_str(), m.id.c_str(), mode_name(m), cap, rb, "cuts", cand[i], -1, L, E())) { d.n = 1; d.p[0] = cand[i]; exec_bad(c, m, kind, T, wire, el, d, rb, cap, sub); }
+            if (k2) for (int j = i + 1; j < n && cand[j] < L; j++)
+                if (c.begin(BAD_FMT, kname, what.c_str(), m.id.c_str(), mode_name(m), cap, rb, "cuts", cand[i], cand[j], L, E())) { d.n = 2; d.p[0] = cand[i]; d.p[1] = cand[j]; exec_bad(c, m, kind, T, wire, el, d, rb, cap, sub); }
+        }
+    }
+}
+static std::vector<int> all_positions(size_t L) { std::vector<int> v; for (size_t p = 1; p < L; p++) v.push_back((int)p); return v; }
+// candidate cut positions of a modified message: near the modification, plus the base candidates shifted
+static std::vector<int> near_positions(const Msg& m, size_t at, int delta, size_t L) {
+    std::vector<int> v;
+    for (int p : m.cand) { int q = (size_t)p <= at ? p : p + delta; if (q >= 1 && q < (int)L) v.push_back(q); }
+    for (int q = (int)at - 2; q <= (int)at + 3 + (delta > 0 ? delta : 0); q++) if (q >= 1 && q < (int)L) v.push_back(q);
+    std::sort(v.begin(), v.end()); v.erase(std::unique(v.begin(), v.end()), v.end());
+    return v;
+}
+
+static void enum_bad(seqx::Ctx& c, bool thorough) {
+    const std::vector<size_t> RB2 = {1, RB_BIG}, RB1 = {RB_BIG};
+    std::vector<Msg> core = core_messages(thorough);
+    char what[200];
+    // E1 every truncation point of every core message
+    for (auto& m : core) {
+        bool longmsg = m.wire.size() > 300;
+        std::vector<int> Ts = {0}; if (longmsg) for (int p : m.cand) Ts.push_back(p); else for (size_t p = 1; p < m.msg_len; p++) Ts.push_back((int)p);
+        for (int T : Ts) {
+            if ((size_t)T >= m.msg_len) continue;
+            std::string w = m.wire.substr(0, T), el = m.el.substr(0, T);
+            snprintf(what, sizeof what, "truncated-after=%d(of %zu)", T, m.msg_len);
+            std::vector<int> cand; for (int p : m.cand) if (p < T) cand.push_back(p);
+            bad_deliveries(c, m, K_TRUNC, "trunc", what, T, w, el, cand, thorough && !longmsg, RB2, T < (int)m.hdr_len ? 0 : m.el[T]);
+        }
+    }
+    // E2 chunk-size digits replaced by non-hex; E4 chunk size larger than the data that follows
+    for (auto& m : core) {
+        if (m.fr.kind != F_CHUNK) continue;
+        for (size_t di = 0; di < m.size_digits.size(); di++) {
+            size_t p = m.size_digits[di];
+            for (char ch : {'g', '-', ' ', 'x', '\r', '\n'}) {
+                std::string w = m.wire; w[p] = ch;
+                snprintf(what, sizeof what, "byte[%zu]('%c' of a chunk-size)->0x%02x", p, m.wire[p], ch);
+                bad_deliveries(c, m, K_BADHEX, "badhex", what, 0, w, m.el, near_positions(m, p, 0, w.size()), thorough && w.size() < 300, RB2, ch * 4 + (m.el[p] == E_LAST));
+            }
+            if (m.el[p] != E_LAST && (p + 1 == m.wire.size() || m.el[p + 1] != E_CSIZE)) {          // last digit of a data chunk's size
+                for (const char* repl : {"+1", "+2", "1000", "ffffffffffffffff", "fffffffffffffffff"}) {
+                    std::string w = m.wire, el = m.el;
+                    if (repl[0] == '+') { int v = (w[p] >= 'a' ? w[p] - 'a' + 10 : w[p] >= 'A' ? w[p] - 'A' + 10 : w[p] - '0') + (repl[1] - '0'); if (v > 15) continue; w[p] = "0123456789abcdef"[v]; }
+                    else { size_t a = p; while (a > 0 && m.el[a - 1] == E_CSIZE) a--; w.replace(a, p + 1 - a, repl); el.replace(a, p + 1 - a, std::string(strlen(repl), (char)E_CSIZE)); }
+                    snprintf(what, sizeof what, "chunk-size-at[%zu]:=%s(larger than the data)", p, repl);
+                    bad_deliveries(c, m, K_BIGCHUNK, "bigchunk", what, 0, w, el, near_positions(m, p, (int)w.size() - (int)m.wire.size(), w.size()), false, RB2, repl[0] * 8 + strlen(repl));
+                }
+            }
+        }
+    }
+    // E3 one CR or one LF of a structural CRLF missing
+    for (auto& m : core)
+        for (size_t p = 0; p < m.msg_len; p++) {
+            if (!el_is_crlf(m.el[p])) continue;
+            bool is_lf = p > 0 && m.el[p - 1] == m.el[p];
+            std::string w = m.wire, el = m.el; w.erase(p, 1); el.erase(p, 1);
+            snprintf(what, sizeof what, "%s-at[%zu]-deleted", is_lf ? "LF" : "CR", p);
+            bad_deliveries(c, m, is_lf ? K_NOLF : K_NOCR, is_lf ? "nolf" : "nocr", what, 0, w, el, near_positions(m, p, -1, w.size()), thorough && w.size() < 300, RB2, m.el[p]);
+        }
+    // E5 header line without colon, inserted at every header position
+    for (auto& m : core)
+        for (size_t hi = 0; hi < m.hdr_starts.size(); hi++)
+            for (const char* line : {"NoColonHere\r\n", "\r", " \r\n"}) {
+                size_t p = m.hdr_starts[hi];
+                std::string w = m.wire, el = m.el; w.insert(p, line); el.insert(p, std::string(strlen(line), (char)E_HNAME));
+                snprintf(what, sizeof what, "line-without-colon(%zu bytes)-inserted-at[%zu]", strlen(line), p);
+                bad_deliveries(c, m, K_NOCOLON, "nocolon", what, 0, w, el, near_positions(m, p, (int)strlen(line), w.size()), false, RB2, hi * 4 + strlen(line) % 4);
+            }
+    // E7 every byte string up to length n over a small alphabet: as a whole message, after a valid start line, as a chunked body
+    {
+        const char A[] = {'G', '1', ' ', '\r', '\n', ':', '0', 'H'}; const char B[] = {'0', '1', 'a', '\r', '\n', ';', 'g'};
+        Msg rq = build(0, {}, {F_NONE, 0, 0}, 0, false), rs = build(2, {}, {F_NONE, 0, 0}, 0, false);
+        Msg cq = build(1, {}, {F_CHUNK, 0, 0}, 0, false), cs = build(2, {0}, {F_CHUNK, 0, 0}, 1, false);
+        struct G { const Msg* base; size_t keep; const char* alpha; int na; int maxlen; const char* name; };
+        G gs[] = {{&rq, 0, A, 8, thorough ? 6 : 5, "garbage-as-request"}, {&rs, 0, A, 8, thorough ? 6 : 5, "garbage-as-response"},
+                  {&rq, 16, A, 8, thorough ? 5 : 4, "garbage-after-request-line"}, {&rs, 17, A, 8, thorough ? 5 : 4, "garbage-after-status-line"},
+                  {&cq, cq.hdr_len, B, 7, thorough ? 7 : 6, "garbage-as-chunked-request-body"}, {&cs, cs.hdr_len, B, 7, thorough ? 7 : 6, "garbage-as-chunked-response-body"}};
+        for (auto& g : gs)
+            for (int len = 1; len <= g.maxlen; len++) {
+                uint64_t total = 1; for (int i = 0; i < len; i++) total *= g.na;
+                for (uint64_t code = 0; code < total; code++) {
+                    bool mine_w = c.begin("E-%s code=%llu len=%d (base %zu bytes of %s + digits of code in base %d over the alphabet, least significant first) mode=%s cap=65535 rb=1 delivery=whole",
+                                          g.name, (unsigned long long)code, len, g.keep, g.base->id.c_str(), g.na, mode_name(*g.base));
+                    bool mine_e = false;
+                    std::string w, el;
+                    auto mk = [&]() { w = g.base->wire.substr(0, g.keep); uint64_t x = code; for (int i = 0; i < len; i++) { w += g.alpha[x % g.na]; x /= g.na; } el.assign(w.size(), (char)E_TAIL); };
+                    if (mine_w) { mk(); Delivery d; exec_bad(c, *g.base, K_GARBAGE, 0, w, el, d, 1, 65535, len); }
+                    mine_e = c.begin("E-%s code=%llu len=%d (base %zu bytes of %s + digits of code in base %d over the alphabet, least significant first) mode=%s cap=65535 rb=8192 delivery=one-byte-at-a-time",
+                                     g.name, (unsigned long long)code, len, g.keep, g.base->id.c_str(), g.na, mode_name(*g.base));
+                    if (mine_e) { mk(); Delivery d; d.every = true; exec_bad(c, *g.base, K_GARBAGE, 0, w, el, d, RB_BIG, 65535, len + 100); }
+                }
+            }
+    }
+    // E6 header block larger than / just fitting the receive buffer
+    for (unsigned cap : {5200u, 8191u, 65535u})
+        for (int start : {0, 2}) {
+            Msg base = build(start, {0}, {F_CL, 5, 0}, 1, false);
+            size_t fixed = base.hdr_len + strlen("X-Long: \r\n");
+            std::vector<long> Hs;      // header block sizes
+            for (long d = -3; d <= 3; d++) { Hs.push_back((long)cap - 5120 + d); Hs.push_back((long)cap + d); Hs.push_back((long)cap - 1024 + d); }
+            Hs.push_back(cap / 2); Hs.push_back(4096); Hs.push_back(4097); Hs.push_back(cap + 5000L);
+            for (long H : Hs) {
+                if (H < (long)fixed) continue;
+                size_t vlen = H - fixed;
+                for (int dl = 0; dl < 4; dl++) {       // whole (recv takes <= 4096), 1000-byte fragments, 4095-byte fragments, one byte at a time
+                    if (dl == 3 && !(thorough || H < 12000)) continue;
+                    if (!c.begin("E-oversize base=%s + header \"X-Long: <%zu x 'a'>\" before the terminator: header block %ld bytes, cap=%u mode=%s rb=8192 delivery=%s",
+                                 base.id.c_str(), vlen, H, cap, mode_name(base), dl == 0 ? "whole" : dl == 1 ? "fragments-of-1000" : dl == 2 ? "fragments-of-4095" : "one-byte-at-a-time")) continue;
+                    Msg m = base; size_t at = m.hdr_len - 2;
+                    std::string line = "X-Long: " + std::string(vlen, 'a') + "\r\n";
+                    m.wire.insert(at, line); m.el.insert(at, std::string(line.size(), (char)E_HVAL)); m.hdrs.push_back({"X-Long", std::string(vlen, 'a')});
+                    m.hdr_len += line.size(); m.msg_len += line.size(); m.plan = lookup_plan(m.hdrs);
+                    Delivery d; std::vector<int> cuts;
+                    if (dl == 3) d.every = true;
+                    else if (dl) { int fs = dl == 1 ? 1000 : 4095; for (int p = fs; p < (int)m.wire.size() && d.n < 40; p += fs) d.p[d.n++] = p; }
+                    Result r; run(m.wire, d, m.req ? M_SERVER_REQ : M_CLIENT_RESP, Verb::GET, cap, RB_BIG, 16, &m.plan, r);
+                    uint64_t o;
+                    if (r.overrun) { c.fail("endless-loop", "step bound exceeded (%llu calls)", (unsigned long long)r.calls); o = 1; }
+                    else if (r.rh == 0 && (unsigned long)H >= cap) { c.fail("oversized-header-accepted", "header block of %ld bytes accepted into a %u byte buffer", H, cap); o = 2; }
+                    else if (r.rh == 0) o = check_valid(c, m, r, RB_BIG);
+                    else o = 10 + (r.rh < 0);
+                    c.cls(seqx::mix(seqx::mix(seqx::mix(100 + K_OVERSIZE, cap), (H >= (long)cap) * 4 + (H > (long)cap - 5120) * 2 + (H > 4096)), dl * 100 + o));
+                }
+            }
+        }
+    // E8 header COUNT around the buffer limit: N minimal headers "hN:\r\n"-style (text grows up, 8-byte index entries grow down)
+    for (unsigned cap : {8191u, 65535u})
+        for (int start : {1, 3}) {
+            Msg base = build(start, {}, {F_NONE, 0, 0}, 0, false);
+            // text 4 bytes + index 8 bytes per header "a:\r\n"
+            long nmax = ((long)cap - (long)base.hdr_len) / 12;
+            for (long N = nmax - (thorough ? 12 : 4); N <= nmax + (thorough ? 12 : 4); N++) {
+                for (int dl = 0; dl < 2; dl++) {
+                    if (!c.begin("E-manyhdr base=%s + %ld headers \"a:\\r\\n\" (12 bytes of buffer each), cap=%u mode=%s delivery=%s", base.id.c_str(), N, cap, mode_name(base), dl ? "fragments-of-1000" : "whole")) continue;
+                    std::string w = base.wire.substr(0, base.hdr_len - 2); for (long i = 0; i < N; i++) w += "a:\r\n"; w += "\r\n";
+                    Delivery d; if (dl) for (int p = 1000; p < (int)w.size() && d.n < 40; p += 1000) d.p[d.n++] = p;
+                    Result r; run(w, d, base.req ? M_SERVER_REQ : M_CLIENT_RESP, Verb::GET, cap, RB_BIG, 16, nullptr, r);
+                    uint64_t o = 10 + (r.rh < 0);
+                    if (r.overrun) { c.fail("endless-loop", "step bound exceeded"); o = 1; }
+                    else if (r.rh == 0) {
+                        bool ok = r.hdrs.size() == (size_t)N; for (auto& kv : r.hdrs) if (kv.first != "a" || !kv.second.empty()) ok = false;
+                        if (!ok) c.fail("header-multimap-mismatch", "%zu headers parsed of %ld identical \"a:\" headers, or wrong content", r.hdrs.size(), N);
+                        if (!r.body.empty() || r.last_rc != 0) c.fail("body-bytes-mismatch", "empty body expected, got %zu bytes rc=%zd", r.body.size(), r.last_rc);
+                        o = 0;
+                    }
+                    c.cls(seqx::mix(seqx::mix(100 + K_MANYHDR, cap), (N > nmax) * 100 + dl * 10 + o));
+                }
+            }
+        }
+}
+
+
+// ---------------------------------------------------------------------------------------------------------------
+// D: writer / reader pairing. The body goes through Message::write()/writev() (BodyWriteStream or ChunkedBodyWriteStream)
+// into a capturing stream in every split into 1..3 calls; the captured bytes are then parsed and read back.
+// ---------------------------------------------------------------------------------------------------------------
+struct WCase { bool req; bool chunked; size_t n; int a, b; int how; };   // pieces [0,a) [a,b) [b,n); how 0 = write() per piece, 1 = one writev() of the pieces
+
+static bool produce(const WCase& w, const std::string& payload, std::string& captured, std::string& err) {
+    static char* wb; if (!wb) wb = (char*)malloc(65535);
+    memset(wb, 0xDD, 65535);
+    MockStream cs; cs.limit = 100000;
+    size_t cut[4] = {0, (size_t)w.a, (size_t)w.b, w.n}; struct iovec iov[3]; int niov = 0;
+    for (int k = 0; k < 3; k++) if (cut[k + 1] > cut[k]) { iov[niov].iov_base = (void*)(payload.data() + cut[k]); iov[niov].iov_len = cut[k + 1] - cut[k]; niov++; }
+    auto body = [&](Message& m) -> bool {
+        if (w.how == 1) { if (niov) { ssize_t rc = m.writev(iov, niov); if (rc != (ssize_t)w.n) { err = "writev rc"; return false; } } }
+        else for (int k = 0; k < niov; k++) { ssize_t rc = m.write(iov[k].iov_base, iov[k].iov_len); if (rc != (ssize_t)iov[k].iov_len) { err = "write rc"; return false; } }
+        if (m.send() < 0) { err = "send()"; return false; }
+        return true;
+    };
+    if (w.req) {
+        TReq rq(wb, 65535, Verb::POST, "http://h/a?b=c");
+        if (w.chunked) rq.headers.insert("Transfer-Encoding", "chunked"); else rq.headers.content_length(w.n);
+        if (rq.sh(&cs) < 0) { err = "send_header"; return false; }
+        if (!body(rq)) return false;
+    } else {
+        TResp rs(wb, 65535); rs.reset(&cs, false); rs.set_result(200); rs.keep_alive(true);
+        if (w.chunked) rs.headers.insert("Transfer-Encoding", "chunked"); else rs.headers.content_length(w.n);
+        if (!body(rs)) return false;
+    }
+    captured = cs.out;
+    return true;
+}
+
+static void enum_writer(seqx::Ctx& c, bool thorough) {
+    std::vector<size_t> sizes = {0, 1, 2, 5, 16}; if (thorough) { sizes.push_back(33); } sizes.push_back(4100);
+    for (int req = 0; req < 2; req++) for (int chunked = 0; chunked < 2; chunked++) for (size_t n : sizes) {
+        std::string payload = make_payload(n, 3);
+        std::vector<int> cutpos; for (size_t p = 0; p <= n; p++) if (n <= 40 || p <= 2 || n - p <= 2 || (p >= 4094 && p <= 4097)) cutpos.push_back((int)p);
+        for (int how = 0; how < 2; how++)
+            for (size_t ia = 0; ia < cutpos.size(); ia++) for (size_t ib = ia; ib < cutpos.size(); ib++) {
+                int a = cutpos[ia], b = cutpos[ib];
+                // non-empty pieces only: canonical forms  a=b=n (1 piece), a<b=n (2 pieces), 0<a<b<n (3 pieces); n=0: no call at all
+                bool one = a == (int)n && b == (int)n, two = a > 0 && a < (int)n && b == (int)n, three = a > 0 && a < b && b < (int)n;
+                if (!(one || two || three)) continue;
+                WCase w{(bool)req, (bool)chunked, n, a, b, how};
+                // reader side: whole, one byte at a time, every single cut x read sizes {1, big}. The cut positions are enumerated from
+                // the length a plain reference encoder gives (the case itself uses the bytes the library really wrote).
+                size_t hl = (req ? strlen("POST /a?b=c HTTP/1.1\r\nHost: h\r\n") : strlen("HTTP/1.1 200 OK\r\n")) + strlen("Connection: keep-alive\r\n\r\n")
+                          + (chunked ? strlen("Transfer-Encoding: chunked\r\n") : strlen("Content-Length: \r\n") + std::to_string(n).size());
+                size_t bl = n;
+                if (chunked) { bl = 5; size_t pc[3] = {(size_t)a, (size_t)(b - a), n - b}; if (how == 1) { pc[0] = n; pc[1] = pc[2] = 0; }
+                               for (size_t x : pc) if (x) { char hb[24]; bl += snprintf(hb, sizeof hb, "%zx", x) + 4 + x; } }
+                size_t len = hl + bl;
+                std::vector<int> cuts = {-1, 0};
+                for (size_t q = 1; q < len; q++) if (n <= 40 || q <= hl + 12 || len - q <= 12 || (q >= 4094 && q <= 4098) || (q >= hl + 4094 && q <= hl + 4098)) cuts.push_back((int)q);
+                for (size_t rb : {(size_t)1, (size_t)RB_BIG}) for (int cut : cuts) {
+                    if (!c.begin("D-writer %s %s payload=%zu bytes written as pieces [0,%d)[%d,%d)[%d,%zu) via %s; read back: rb=%zu delivery=%s cut=%d",
+                                 req ? "Request(POST http://h/a?b=c)" : "Response(200)", chunked ? "Transfer-Encoding:chunked" : "Content-Length", n, a, a, b, b, n,
+                                 how ? "one writev()" : "write() per non-empty piece", rb, cut == -1 ? "whole" : cut == 0 ? "one-byte-at-a-time" : "cuts", cut)) continue;
+                    std::string cap, err;
+                    if (!produce(w, payload, cap, err)) { c.fail("writer-failed", "%s", err.c_str()); continue; }
+                    if (cap.size() != len) c.fail("writer-wire-length", "library wrote %zu bytes, reference encoding has %zu: \"%s\"", cap.size(), len, esc(cap, 300).c_str());
+                    Delivery d; if (cut == 0) d.every = true; else if (cut > 0) { d.n = 1; d.p[0] = cut; }
+                    Result r; run(cap, d, req ? M_SERVER_REQ : M_CLIENT_RESP, Verb::POST, 65535, rb, n + 8, nullptr, r);
+                    uint64_t o = 0;
+                    if (r.overrun || r.endless) { c.fail("endless-loop", "step bound exceeded"); o = 1; }
+                    else if (r.rh != 0) { c.fail("written-message-rejected", "receive_header() = %d for \"%s\"", r.rh, esc(cap, 200).c_str()); o = 2; }
+                    else {
+                        if (r.body != payload) { c.fail("written-body-read-back-differs", "read %zu bytes, wrote %zu; wire \"%s\"", r.body.size(), n, esc(cap, 300).c_str()); o = 3; }
+                        else if (r.last_rc != 0) { c.fail("end-of-body-not-reported", "read() = %zd after the payload", r.last_rc); o = 4; }
+                        if (req && (r.verb != Verb::POST || r.target != "/a?b=c" || r.version != "1.1")) { c.fail("start-line-mismatch", "written request line read back as verb=%d target=%s", (int)r.verb, esc(r.target).c_str()); o = 5; }
+                        if (!req && (r.status != 200 || r.reason != "OK" || r.version != "1.1")) { c.fail("start-line-mismatch", "written status line read back as %d %s", r.status, esc(r.reason).c_str()); o = 5; }
+                        size_t want = req ? 3 : 2; bool hok = r.hdrs.size() == want;       // Host (request), framing header, Connection: keep-alive
+                        for (auto& kv : r.hdrs) {
+                            if (kv.first == "Host") hok = hok && kv.second == "h";
+                            else if (kv.first == "Connection") hok = hok && kv.second == "keep-alive";
+                            else if (kv.first == "Content-Length") hok = hok && !chunked && kv.second == std::to_string(n);
+                            else if (kv.first == "Transfer-Encoding") hok = hok && chunked && kv.second == "chunked";
+                            else hok = false;
+                        }
+                        if (!hok) { c.fail("header-multimap-mismatch", "written headers read back as %zu headers; wire \"%s\"", r.hdrs.size(), esc(cap, 200).c_str()); o = 6; }
+                    }
+                    c.cls(seqx::mix(seqx::mix(seqx::mix(200 + req * 2 + chunked, one ? 1 : two ? 2 : 3), how * 10 + (rb == 1)), seqx::mix(cut <= 0 ? cut : (cut > 0 && d.n ? 5 + (size_t)d.p[0] * 64 / (cap.size() + 1) : 4), o + 10 * std::min<size_t>(n, 6))));
+                }
+            }
+    }
+    // D0: a zero-length write() among the calls (IStream::write(buf, 0) is a legal call that writes nothing)
+    for (int req = 0; req < 2; req++) for (int chunked = 0; chunked < 2; chunked++) for (int where = 0; where < 3; where++) {
+        if (!c.begin("D0-zero-length-write %s %s payload=5 bytes: write(2 bytes) write(3 bytes) with an extra write(buf,0) %s; read back whole, rb=8192",
+                     req ? "Request(POST http://h/a?b=c)" : "Response(200)", chunked ? "Transfer-Encoding:chunked" : "Content-Length", where == 0 ? "first" : where == 1 ? "in the middle" : "last")) continue;
+        static char* wb; if (!wb) wb = (char*)malloc(65535);
+        std::string payload = make_payload(5, 3); MockStream cs; cs.limit = 100000; std::string err;
+        auto body = [&](Message& m) { size_t off = 0; const size_t pc[2] = {2, 3};
+            for (int k = 0; k < 3; k++) { if (k == where) { if (m.write(payload.data(), 0) != 0) err = "write(buf,0) != 0"; } if (k < 2) { if (m.write(payload.data() + off, pc[k]) != (ssize_t)pc[k]) err = "write rc"; off += pc[k]; } }
+            if (m.send() < 0) err = "send()"; };
+        if (req) { TReq rq(wb, 65535, Verb::POST, "http://h/a?b=c"); if (chunked) rq.headers.insert("Transfer-Encoding", "chunked"); else rq.headers.content_length(5); if (rq.sh(&cs) < 0) err = "send_header"; body(rq); }
+        else { TResp rs(wb, 65535); rs.reset(&cs, false); rs.set_result(200); if (chunked) rs.headers.insert("Transfer-Encoding", "chunked"); else rs.headers.content_length(5); body(rs); }
+        if (!err.empty()) { c.fail("writer-failed", "%s", err.c_str()); continue; }
+        Delivery d; Result r; run(cs.out, d, req ? M_SERVER_REQ : M_CLIENT_RESP, Verb::POST, 65535, RB_BIG, 16, nullptr, r);
+        if (r.rh != 0 || r.body != payload || r.last_rc != 0)
+            c.fail("zero-length-write-changes-the-body", "rh=%d, read back %zu of 5 bytes; wire \"%s\"", r.rh, r.body.size(), esc(cs.out, 300).c_str());
+        c.cls(seqx::mix(300 + req * 2 + chunked, where * 2 + (r.body == payload)));
+    }
+}
+
 //@@TAIL
+#ifdef C13_RXBUF_NONUL
+// Separate target: request parsing with a receive buffer that contains no NUL byte anywhere (exact-size heap block filled with 0xDD).
 static void seqx_enumerate(seqx::Ctx& c, bool thorough) {
     set_log_output(log_output_null); set_log_output_level(ALOG_FATAL + 1);
-    enum_valid(c, thorough);
+    const std::vector<size_t> RB1 = {RB_BIG};
+    for (int start : {0, 1}) for (unsigned cap : {65535u, 8191u}) {
+        Msg m = build(start, {0}, {F_CL, 5, 0}, 1, false);
+        layer_cuts(c, m, 0, RB1, cap, false, "N-rxbuf-without-NUL", 400);
+    }
+    // control: responses do not go through the same code
+    Msg r = build(2, {0}, {F_CL, 5, 0}, 1, false);
+    layer_cuts(c, r, 1, RB1, 65535, false, "N-rxbuf-without-NUL", 400);
+}
+SEQX_MAIN("C13", "http_rxbuf_nonul", "requests parsed from an exact-size receive buffer that holds no NUL byte (2 request messages x 2 buffer sizes x {whole, one byte at a time}); responses with every single cut as control")
+#else
+static void seqx_enumerate(seqx::Ctx& c, bool thorough) {
+    set_log_output(log_output_null); set_log_output_level(ALOG_FATAL + 1);
+    bool dbg = getenv("C13_COUNT") != nullptr; uint64_t k0 = c.counter;
+    enum_valid(c, thorough);  if (dbg) fprintf(stderr, "valid  %llu\n", (unsigned long long)(c.counter - k0)); k0 = c.counter;
+    enum_writer(c, thorough); if (dbg) fprintf(stderr, "writer %llu\n", (unsigned long long)(c.counter - k0)); k0 = c.counter;
+    enum_bad(c, thorough);    if (dbg) fprintf(stderr, "bad    %llu\n", (unsigned long long)(c.counter - k0));
 }
 
 SEQX_MAIN("C13", "http", "rule tbd")
+#endif
